@@ -1186,7 +1186,19 @@ func TestVerif_C10_DBVersions(t *testing.T) {
 						opts.RevTreeHistory = []string{newDoc.RevID}
 						opts.ConflictResolver = merge
 						opts.ISGRWrite = true
-						now += uint64(rapid.IntRange(0, 1).Draw(rt, "mergeClockAdvance")) << sgbucket.HLCLogicalBits
+						// the merge generates a local version: same clock / restart dimensions as a local write
+						switch rapid.IntRange(0, 3).Draw(rt, "mergeClock") {
+						case 0:
+							now = base0 + uint64(rapid.IntRange(0, 6).Draw(rt, "mergeClockTo"))<<sgbucket.HLCLogicalBits
+						case 1:
+							now += uint64(rapid.IntRange(1, 3).Draw(rt, "mergeClockAdvance")) << sgbucket.HLCLogicalBits
+						}
+						if rapid.IntRange(0, 2).Draw(rt, "mergeRestart") == 0 {
+							env.DBC.SetHLCClockForTest(func() uint64 { return now })
+						}
+						if now <= maxOwn && maxOwn != 0 {
+							lagging = true
+						}
 					}
 					_, _, _, err := coll.PutExistingCurrentVersion(ctx, opts)
 					ops = append(ops, fmt.Sprintf("push %s@%s concurrent=%v err=%v", rel(pv), peer, concurrent, err != nil))
